@@ -792,6 +792,38 @@ pub fn c14_lines(input: &str, well_formed: bool) -> Vec<String> {
     let n = raw.len();
     let has_cond = raw.iter().any(|t| matches!(t.get_token_type(), RawTokenType::ConditionalDirective(_)));
     let (lines, _tokens) = DelphiLogicalLineParser {}.parse(raw);
+    // the lines line-based formatting actually sees: after the three post-parse consolidators
+    {
+        let (mut lines2, mut tokens) = DelphiLogicalLineParser {}.parse(DelphiLexer {}.lex(input));
+        TokenConsolidator::consolidate(&DistinguishGenericTypeParamsConsolidator {}, &mut tokens);
+        LogicalLinesConsolidator::consolidate(&ConditionalDirectiveConsolidator {}, (&mut tokens, &mut lines2));
+        LogicalLinesConsolidator::consolidate(&DeindentPackageDirectives {}, (&mut tokens, &mut lines2));
+        let mut count = vec![0usize; n];
+        if lines2.len() != lines.len() {
+            fails.push("c14: the consolidators changed the number of logical lines".to_string());
+        }
+        for l in &lines2 {
+            let ts = l.get_tokens();
+            if ts.is_empty() && l.get_line_type() != LogicalLineType::Voided {
+                fails.push("c14: after the consolidators: empty logical line that is not voided".to_string());
+            }
+            for w in ts.windows(2) {
+                if w[0] >= w[1] {
+                    fails.push("c14: after the consolidators: token positions of a line are not strictly increasing".to_string());
+                }
+            }
+            for &t in ts {
+                if t >= n {
+                    fails.push("c14: after the consolidators: token position out of range".to_string());
+                } else {
+                    count[t] += 1;
+                }
+            }
+        }
+        if count.iter().any(|&c| c == 0) {
+            fails.push("c14: after the consolidators: a token belongs to no logical line".to_string());
+        }
+    }
     let mut count = vec![0usize; n];
     for l in &lines {
         let ts = l.get_tokens();
